@@ -5,7 +5,7 @@ executions.  `build_source(name, scratch)` returns a `Built` with the source env
 (the objects a user would have passed in: X, Y, rows, lines, lambda tables, Result object, files) and
 `make_filter(name, owned)` returns a fresh filter (recording caller-owned constructor arguments in `owned`).
 """
-import os, re, math, pickle
+import os, re, math, pickle, copy, types, importlib
 
 from coba import primitives
 from coba.primitives import Environment, Categorical, is_batch
@@ -106,6 +106,22 @@ def src_lam3(scratch):
 
 def src_lin(scratch):
     return Built(LinearSyntheticSimulation(N, 3, 2, 2, seed=1))
+
+
+def _lin(ncx, naf, rf=None, facade=False):
+    """LinearSynthetic variants: no context / no action features, reward_features defaulted or passed by the caller."""
+    owned = {}
+    if rf is not None: owned['reward_features'] = rf
+    if facade:
+        envs = Environments.from_linear_synthetic(3, 2, ncx, naf, seed=1) if rf is None else Environments.from_linear_synthetic(3, 2, ncx, naf, reward_features=rf, seed=1)
+        return Built(envs._envs[0], owned)
+    env = LinearSyntheticSimulation(3, 2, ncx, naf, seed=1) if rf is None else LinearSyntheticSimulation(3, 2, ncx, naf, reward_features=rf, seed=1)
+    return Built(env, owned)
+
+
+def tiny_env(j):
+    """Environment j of a collection of tiny environments with distinct params (save()/from_save() scenarios)."""
+    return LambdaSimulation(2, lambda i, rng: [j, i, rng.random()], lambda i, c, rng: [0, 1], lambda i, c, a, rng: a + j / 100 + rng.random(), j)
 
 
 def _xy():
@@ -222,6 +238,15 @@ SOURCES = {
     'lamna':    (src_lamna,    'LambdaSimulation',                    {'sim'}),
     'lamv':     (src_lamv,     'LambdaSimulation',                    {'sim'}),
     'lin':      (src_lin,      'LinearSyntheticSimulation',           {'sim'}),
+    'lin0x':    (lambda sc: _lin(0, 2),                     'LinearSyntheticSimulation(no context features)', {'sim'}),
+    'lin0a':    (lambda sc: _lin(2, 0),                     'LinearSyntheticSimulation(no action features)',  {'sim'}),
+    'lin0xr':   (lambda sc: _lin(0, 2, ['x', 'xa']),        'LinearSyntheticSimulation(no context features)', {'sim'}),
+    'lin0ar':   (lambda sc: _lin(2, 0, ['a', 'xa']),        'LinearSyntheticSimulation(no action features)',  {'sim'}),
+    'linF0x':   (lambda sc: _lin(0, 2, facade=True),        'LinearSyntheticSimulation(no context features)', {'sim'}),
+    'linF0ar':  (lambda sc: _lin(2, 0, ['a', 'xa'], True),  'LinearSyntheticSimulation(no action features)',  {'sim'}),
+    'linr':     (lambda sc: _lin(2, 2, ['a', 'xa', 'xxa']), 'LinearSyntheticSimulation',                      {'sim'}),
+    'lind':     (lambda sc: _lin(2, 2),                     'LinearSyntheticSimulation',                      {'sim'}),
+    'linFd':    (lambda sc: _lin(2, 2, facade=True),        'LinearSyntheticSimulation',                      {'sim'}),
     'lam3':     (src_lam3,     'LambdaSimulation',                    {'sim'}),
     'lam40':    (src_lam40,    'LambdaSimulation(40 interactions)',   {'sim'}),
     'lam1k':    (src_lam1k,    'LambdaSimulation(1001 interactions)', {'sim'}),
@@ -238,7 +263,8 @@ SOURCES = {
 }
 
 
-SRC_BIG = ('lam3', 'lam40', 'lam1k')       # explored by their own plans (see C04.pipelines)
+SRC_LIN = ('lin0x', 'lin0a', 'lin0xr', 'lin0ar', 'linF0x', 'linF0ar', 'linr', 'lind', 'linFd')
+SRC_BIG = ('lam3', 'lam40', 'lam1k') + SRC_LIN       # explored by their own plans (see C04.pipelines)
 
 
 def build_source(name, scratch):
@@ -357,6 +383,7 @@ def _sc_logged(e, o):
 
 # name -> (call on an Environments object, needs(tags of a member) -> bool)
 SHORTCUTS = {
+    'none':          (lambda e, o: e, _any),                 # the two environments just sit in one Environments object
     'cache':         (lambda e, o: e.cache(), _any),
     'chunk':         (lambda e, o: e.chunk(), _any),
     'chunk_nocache': (lambda e, o: e.chunk(cache=False), _any),
@@ -394,6 +421,10 @@ SHORTCUTS = {
 # pairs of DIFFERENT environments held by one Environments object (other data, other length, other kind)
 DUO_PAIRS = [('lam', 'lam3'), ('lams', 'lam'), ('lamsp', 'lam3'), ('resO', 'lam1h')]
 DUO_PAIRS_MORE = [('arffL', 'supLS'), ('supXY', 'csvF'), ('resF', 'resO'), ('lamna', 'lamv')]
+
+
+# a degenerate linear synthetic environment next to an ordinary one that relies on the default arguments
+LIN_PAIRS = [(a, b) for a in ('lin0x', 'lin0a', 'lin0xr', 'lin0ar', 'linF0x', 'linF0ar') for b in ('lind', 'linFd')] + [('linr', 'lind')]
 
 
 def duo_compatible(a, b, short):
@@ -505,3 +536,53 @@ def snapshot(built):
     for k, p in built.files.items():
         with open(p, 'rb') as f: out[k] = f.read()
     return out
+
+
+# ------------------------------------------------------------------ mutable default argument objects (process-global state)
+
+_DEFAULT_MODULES = ['coba.environments.core', 'coba.environments.synthetics', 'coba.environments.filters', 'coba.environments.supervised',
+                    'coba.environments.serialized', 'coba.environments.results', 'coba.pipes.filters', 'coba.pipes.sources', 'coba.pipes.rows',
+                    'coba.pipes.readers', 'coba.encodings', 'coba.primitives']
+
+
+def _scan_defaults():
+    """[(name, live default object, pristine deep copy)] for every list/dict/set default argument of coba's environment / pipe code."""
+    out, seen = [], set()
+
+    def scan(fn, name):
+        fn = getattr(fn, '__func__', fn)
+        if not isinstance(fn, types.FunctionType) or id(fn) in seen or not (fn.__module__ or '').startswith('coba'): return
+        seen.add(id(fn))
+        code = fn.__code__
+        argnames = code.co_varnames[:code.co_argcount]
+        for i, d in enumerate(fn.__defaults__ or ()):
+            if isinstance(d, (list, dict, set)):
+                out.append((f'{name}({argnames[len(argnames) - len(fn.__defaults__) + i]})', d, copy.deepcopy(d)))
+        for k, d in (fn.__kwdefaults__ or {}).items():
+            if isinstance(d, (list, dict, set)): out.append((f'{name}({k})', d, copy.deepcopy(d)))
+
+    for m in _DEFAULT_MODULES:
+        mod = importlib.import_module(m)
+        for n, o in list(vars(mod).items()):
+            if isinstance(o, type) and o.__module__ == m:
+                for k, v in list(vars(o).items()): scan(v, f'{n}.{k}')
+            else:
+                scan(o, n)
+    return out
+
+
+DEFAULTS = _scan_defaults()
+
+
+def defaults_changed():
+    """names of the default argument objects that no longer hold what they held at import"""
+    return [n for n, live, pristine in DEFAULTS if live != pristine or repr(live) != repr(pristine)]
+
+
+def defaults_restore():
+    """what a fresh interpreter would hold (called between executions only)"""
+    for n, live, pristine in DEFAULTS:
+        if live != pristine or repr(live) != repr(pristine):
+            if isinstance(live, list): live[:] = copy.deepcopy(pristine)
+            else:
+                live.clear(); live.update(copy.deepcopy(pristine))
